@@ -20,6 +20,7 @@ type Shape struct {
 	MaxPix    uint64 // pixel buffer limit (bytes)
 	MaxWork   uint64 // work buffer limit (bytes)
 	Pad       uint64 // hashers: leading pad (alignment) of the slices given to update
+	PixFmt    uint64 // decode_frame destination pixel format (0 = BGRA_NONPREMUL, 0xFFFFFFFF = the image's own)
 	CutNum    int    // if CutDen > 0: one cut at len*CutNum/CutDen (instead of Cuts)
 	CutDen    int
 	// NeverClose: the source is never marked closed, so the run ends suspended ("short read")
@@ -116,6 +117,15 @@ func (d *drv) nextPiece() []byte {
 
 // src issues a source-consuming call, feeding further pieces while it reports "short read".
 func (d *drv) src(mk func() cserve.Cmd) cserve.Result {
+	r, _ := d.srcX(mk)
+	return r
+}
+
+// srcX is src with follow-up commands (getters) that ride in the same round trip when the whole
+// input is presented at once (one-shot shapes); it returns their results, or nil if they were not
+// issued (then the caller issues them itself).
+func (d *drv) srcX(mk func() cserve.Cmd, extra ...cserve.Cmd) (cserve.Result, []cserve.Result) {
+	ride := len(extra) > 0 && len(d.sh.Cuts) == 0 && !d.sh.Pure && !d.sh.NeverClose
 	var data []byte
 	if d.fed == 0 && len(d.in) > 0 {
 		data = d.nextPiece()
@@ -123,7 +133,7 @@ func (d *drv) src(mk func() cserve.Cmd) cserve.Result {
 	for {
 		if d.calls >= d.sh.MaxCalls {
 			d.end("max-calls")
-			return cserve.Result{Err: "max-calls"}
+			return cserve.Result{Err: "max-calls"}, nil
 		}
 		d.calls++
 		c := mk()
@@ -139,27 +149,36 @@ func (d *drv) src(mk func() cserve.Cmd) cserve.Result {
 		if d.sh.Pure {
 			batch = append(batch, cserve.PureCheck(d.slot, d.sh.QuirkKey))
 		}
+		wlAt := -1
 		if d.trackWork {
+			wlAt = len(batch)
 			batch = append(batch, cserve.Call(d.slot, cserve.MWorkbufLen))
+		}
+		exAt := len(batch)
+		if ride {
+			batch = append(batch, extra...)
 		}
 		rs := d.doN(batch...)
 		r := rs[0]
-		if d.trackWork && len(rs) == len(batch) && rs[len(rs)-1].Err == "" {
-			d.wl = rs[len(rs)-1].V[0]
+		if wlAt >= 0 && len(rs) == len(batch) && rs[wlAt].Err == "" {
+			d.wl = rs[wlAt].V[0]
 			if d.wl > d.sh.MaxWork {
 				d.end("work-too-large")
-				return cserve.Result{Err: "work-too-large"}
+				return cserve.Result{Err: "work-too-large"}, nil
 			}
 		}
 		if d.err != nil || r.Err != "" {
 			d.end("refused:" + r.Err)
-			return r
+			return r, nil
 		}
 		if r.Status == stShortRead && d.fed < len(d.in) {
 			data = d.nextPiece()
 			continue
 		}
-		return r
+		if ride && len(rs) == len(batch) {
+			return r, rs[exAt:]
+		}
+		return r, nil
 	}
 }
 
@@ -280,7 +299,7 @@ func DriveN(ex ExecN, slot uint32, kind int, in []byte, sh Shape, fill Fill) (*T
 		d.do(cserve.Checksum(slot))
 		d.end("status")
 	case cserve.KindImageDecoder:
-		r := d.src(func() cserve.Cmd { return cserve.Call(slot, cserve.MDecodeImageConfig) })
+		r, ex := d.srcX(func() cserve.Cmd { return cserve.Call(slot, cserve.MDecodeImageConfig) }, cserve.Get(slot, cserve.GetImageConfig))
 		if d.quit {
 			break
 		}
@@ -288,7 +307,12 @@ func DriveN(ex ExecN, slot uint32, kind int, in []byte, sh Shape, fill Fill) (*T
 			d.end("status")
 			break
 		}
-		g := d.do(cserve.Get(slot, cserve.GetImageConfig))
+		var g cserve.Result
+		if ex != nil {
+			g = ex[0]
+		} else {
+			g = d.do(cserve.Get(slot, cserve.GetImageConfig))
+		}
 		if len(g.Data) < 64 {
 			d.end("refused:short image config")
 			break
@@ -303,7 +327,8 @@ func DriveN(ex ExecN, slot uint32, kind int, in []byte, sh Shape, fill Fill) (*T
 				d.end("max-frames")
 				break
 			}
-			r = d.src(func() cserve.Cmd { return cserve.Call(slot, cserve.MDecodeFrameConfig) })
+			r, ex = d.srcX(func() cserve.Cmd { return cserve.Call(slot, cserve.MDecodeFrameConfig) },
+				cserve.Get(slot, cserve.GetFrameConfig), cserve.Call(slot, cserve.MWorkbufLen))
 			if d.quit {
 				break
 			}
@@ -311,25 +336,39 @@ func DriveN(ex ExecN, slot uint32, kind int, in []byte, sh Shape, fill Fill) (*T
 				d.end("status")
 				break
 			}
-			d.do(cserve.Get(slot, cserve.GetFrameConfig))
-			wl, ok := d.workLen(cserve.MDecodeFrame)
-			if !ok {
-				break
+			var wl uint64
+			if ex != nil {
+				if ex[1].Err != "" {
+					d.end("refused:" + ex[1].Err)
+					break
+				}
+				if wl = ex[1].V[0]; wl > sh.MaxWork {
+					d.end("work-too-large")
+					break
+				}
+			} else {
+				d.do(cserve.Get(slot, cserve.GetFrameConfig))
+				var ok bool
+				if wl, ok = d.workLen(cserve.MDecodeFrame); !ok {
+					break
+				}
 			}
-			d.wl, d.trackWork = wl, true
-			r = d.src(func() cserve.Cmd {
+			d.wl, d.trackWork = wl, ex == nil
+			r, ex = d.srcX(func() cserve.Cmd {
 				c := cserve.Call(slot, cserve.MDecodeFrame)
 				c.WorkPolicy, c.WorkLen = cserve.WorkGiven, d.wl
-				c.A0, c.A1 = 0, sh.MaxPix
+				c.A0, c.A1 = sh.PixFmt, sh.MaxPix
 				c.Blend = 0
 				return c
-			})
+			}, cserve.Call(slot, cserve.MFrameDirtyRect), cserve.Get(slot, cserve.GetPixels))
+			d.trackWork = false
 			if d.quit {
 				break
 			}
-			d.trackWork = false
-			d.do(cserve.Call(slot, cserve.MFrameDirtyRect))
-			d.do(cserve.Get(slot, cserve.GetPixels))
+			if ex == nil {
+				d.do(cserve.Call(slot, cserve.MFrameDirtyRect))
+				d.do(cserve.Get(slot, cserve.GetPixels))
+			}
 			if !r.OK {
 				d.end("status")
 				break
@@ -511,4 +550,60 @@ func Final(cmds []cserve.Cmd, res []cserve.Result) (status string, consumed, wri
 		written += uint64(r.NWritten)
 	}
 	return
+}
+
+// StaticScript is the fixed script used for the enumerated families (valid files whose call
+// shape is known in advance): the whole input in one closed piece, work buffers sized by the
+// server from workbuf_len() right before the call (WorkMin), one frame for images. Because it
+// does not depend on any result, many inputs can share one round trip.
+func StaticScript(slot uint32, kind int, in []byte, sh Shape, fill Fill) []cserve.Cmd {
+	var out []cserve.Cmd
+	call := func(method int) cserve.Cmd {
+		c := cserve.Call(slot, method)
+		c.DstFill, c.WorkFill = fill.Dst, fill.Work
+		return c
+	}
+	srcCall := func(method int, data []byte) cserve.Cmd {
+		c := call(method)
+		c.Data = data
+		c.Flags |= cserve.FClosed
+		return c
+	}
+	switch kind {
+	case cserve.KindIOTransformer, cserve.KindTokenDecoder:
+		method := cserve.MTransformIO
+		if kind == cserve.KindTokenDecoder {
+			method = cserve.MDecodeTokens
+		}
+		c := srcCall(method, in)
+		c.DstCap = sh.DstCap
+		c.WorkPolicy = cserve.WorkMin
+		c.Flags |= cserve.FWantBytes | cserve.FCheckScribble
+		out = append(out, call(cserve.MWorkbufLen), c, call(cserve.MWorkbufLen))
+	case cserve.KindHasherU32, cserve.KindHasherU64, cserve.KindHasherBitvec256:
+		cut := 0
+		if sh.CutDen > 0 {
+			cut = len(in) * sh.CutNum / sh.CutDen
+		}
+		if cut > 0 && cut < len(in) {
+			u := cserve.Update(slot, in[:cut])
+			u.A0 = sh.Pad
+			out = append(out, u)
+		} else {
+			cut = 0
+		}
+		u := cserve.UpdateVal(slot, in[cut:])
+		u.A0 = sh.Pad
+		out = append(out, u, cserve.Checksum(slot))
+	case cserve.KindImageDecoder:
+		df := srcCall(cserve.MDecodeFrame, nil)
+		df.WorkPolicy = cserve.WorkMin
+		df.A0, df.A1 = sh.PixFmt, sh.MaxPix
+		out = append(out,
+			srcCall(cserve.MDecodeImageConfig, in), cserve.Get(slot, cserve.GetImageConfig),
+			srcCall(cserve.MDecodeFrameConfig, nil), cserve.Get(slot, cserve.GetFrameConfig), call(cserve.MWorkbufLen),
+			df, call(cserve.MFrameDirtyRect), cserve.Get(slot, cserve.GetPixels),
+			srcCall(cserve.MDecodeFrameConfig, nil), cserve.Get(slot, cserve.GetFrameConfig))
+	}
+	return out
 }
